@@ -110,8 +110,8 @@ func (p *Parser) Parse(namespace string, operationBuffer []byte) (*operation.Ope
 func (p *Parser) ParseOperation(namespace string, operationBuffer []byte, batch bool) (*model.Operation, error) {
 	// check maximum operation size against protocol before parsing; the limit applies to the request as submitted (intake):
 	// an anchored request has been re-serialised and may have grown, and it was measured when it was accepted
-	if !batch && len(operationBuffer) > int(p.MaxOperationSize) {
-		return nil, fmt.Errorf("operation size[%d] exceeds maximum operation size[%d]", len(operationBuffer), int(p.MaxOperationSize))
+	if !batch && uint(len(operationBuffer)) > p.MaxOperationSize {
+		return nil, fmt.Errorf("operation size[%d] exceeds maximum operation size[%d]", len(operationBuffer), p.MaxOperationSize)
 	}
 
 	schema := &operationSchema{}
